@@ -24,7 +24,8 @@ PID = "C12"
 RULE = ("histories of 1..30 events {advance, complete pending connect ok/fail, answer CER 2001/3010, peer "
         "closes, reset, DPR (+close), inbound handshake by the peer} x dial outcome plans {immediate, "
         "in-progress, synchronous error} x flags {persistent, always_reconnect, reconnect_wait 1..60, "
-        "addresses present/absent} x wakeup 1..6; a second, non-persistent peer with addresses is always "
+        "addresses present/absent} x wakeup 1..6; every interleaving (<= 2 deviations, line granularity in "
+        "_reconnect_peers and stop) of Node.stop() racing with a due reconnect pass; a second, non-persistent peer with addresses is always "
         "configured. Non-trivial: >= 1 loss of a persistent peer's connection followed by >= "
         "reconnect_wait of clock; distinct by (flags, script).")
 ASSUME = ["a dial is legal iff the peer is persistent, has addresses, has no live connection, has been disconnected, "
@@ -241,6 +242,78 @@ def evaluate(case) -> Result:
         w.close()
 
 
+def install_points():
+    from dv import sched, simkernel as sk
+    mods = sk.load_node()
+    N = mods["node"].Node
+    # preemption at the lines of the reconnect pass and of stop(); _connect_to_peer itself is entered atomically
+    return sched.install({N._reconnect_peers: None, N.stop: None})
+
+
+def stop_race(decisions, force):
+    """A reconnect is due in the same I/O-loop turn in which another thread calls Node.stop():
+    one schedule of the exploration.  Returns (trace, dials made while the node was stopping)."""
+    from dv import sched
+    w = W.NodeWorld({"peers": [{"name": "peer1.example", "ip": ["10.1.1.1"], "persistent": True, "reconnect_wait": 1}],
+                     "apps": [{"app_id": 4, "auth": True, "peers": [0], "handler": "answer"}],
+                     "node_timers": {"idle": 1000, "dwa": 10, "cer": 3, "cea": 3, "wakeup": 1}, "default_dial": "ok"})
+    try:
+        w.start()
+        c = w.conns[0]
+        w.answer_cer(c, 2001, auth=(4,), host="peer1.example")
+        w.peer_close(c)                      # loss at +0: a redial is due from +1 on
+        while_stopping = []
+
+        def policy(sock, addr):
+            if w.node._stopping:
+                while_stopping.append((w.k.now, addr))
+            return "ok"
+        w.net.dial_policy = policy
+        ex = sched.Explorer(decisions)
+        sched.attach(w.k, ex)
+        ex.armed = True
+        w.k.run()
+        io = [t for t in w.k.threads if "_handle_connections" in t.name][0]
+        due = io.deadline                    # the I/O loop's next wake-up: timers, then the reconnect pass
+
+        def stopper():
+            w.k.block(lambda: False, timeout=5)
+            w.node.stop(wait_timeout=3, force=force)
+        w.k.spawn(stopper, name="stopper")
+        w.k.run()
+        [t for t in w.k.threads if t.name == "stopper"][0].deadline = due        # ... and another thread calls stop() at that very instant
+        w.k.advance(1.5)
+        ex.armed = False
+        w.k.advance(8)
+        return ex.trace, while_stopping
+    finally:
+        w.close()
+
+
+def schedule_part(rec, shard, nshards, thorough):
+    from dv import sched
+    from dv.common import fp
+    info = install_points()
+    if shard == 0:
+        rec.extra["preemption_functions"] = info
+    holder = {}
+    for force in (False, True):
+        def run_one(dec, force=force):
+            tr, ws = stop_race(dec, force)
+            holder["last"] = ws
+            return tr
+        n = 0
+        for dec, trace in sched.enumerate_schedules(run_one, 3 if thorough else 2, shard, nshards):
+            case = {"stop_race": True, "force": force, "schedule": {str(i): c for i, c in sorted(dec.items())}}
+            if holder["last"]:
+                rec.violation("C12/dial/while-stopping", case, f"connect() {holder['last'][0][1]} issued while the node was stopping "
+                              f"(stop() raced with the reconnect pass)")
+            n += 1
+            rec.case(fp("race", force, tuple(sorted(dec.items()))) if dec else None,
+                     ["stop-race-schedule", f"deviations:{len(dec)}"], sample=lambda: dict(case, choice_points=len(trace)))
+        rec.extra["stop_race_schedules"] = rec.extra.get("stop_race_schedules", 0) + n
+
+
 KNOWN_REPRO = {"flags": {"persistent": True, "always": True, "wait": 1, "addr": True, "wakeup": 5},
                "dial_plan": ["ok", "ok"], "allow_known": True,
                "events": [["ADV", 9], ["INBOUND"], ["DPR_CLOSE"], ["ADV", 8]]}
@@ -248,6 +321,7 @@ KNOWN_REPRO = {"flags": {"persistent": True, "always": True, "wait": 1, "addr": 
 
 def shard_main(shard, nshards, tier, scale):
     rec = Recorder(PID)
+    schedule_part(rec, shard, nshards, tier == "thorough")
     if shard == 0:
         r = evaluate(KNOWN_REPRO)
         r.classes.append("known-finding-reproduction")
@@ -365,11 +439,21 @@ def run(tier, scale=1.0):
     rec = Recorder(PID)
     for d in hyp.pool_run(shard_main, (tier, scale)):
         rec.merge(d)
-    required = {"persistent:True": 1, "persistent:False": 1, "always:True": 1, "addr:False": 1, "losses:2": 1,
+    required = {"stop-race-schedule": 1, "persistent:True": 1, "persistent:False": 1, "always:True": 1, "addr:False": 1, "losses:2": 1,
                 "dpr-on-ready": 1, "dwa-event": 1, "dwr-outstanding-at-dpr": 1, "reason-dpr": 1, "dials:3": 1, "loss:sync-refused": 1, "loss:cea-timeout": 1}
     return finish(rec, tier=tier, level="exploration", rule=RULE, assumptions=ASSUME, t0=t0,
                   required_classes=required)
 
 
 def replay(doc):
+    if doc["case"].get("stop_race"):
+        install_points()
+        dec = {int(i): c for i, c in doc["case"]["schedule"].items()}
+        _, ws = stop_race(dec, doc["case"]["force"])
+        if ws:
+            print(f"  replayed: connect() {ws[0][1]} while stopping")
+            print(f"VIOLATION property={PID} replay=(replay)")
+            return 1
+        print(f"[{PID}] replay: does not reproduce")
+        return 0
     return generic_replay(PID, evaluate, doc)
